@@ -38,8 +38,12 @@ def main():
                 print("%s: %s" % (profile, p or "no panic"))
                 bad = bad or bool(p)
             else:
-                print("%s: structural finding, re-run ./check %s to re-evaluate: %s" % (profile, pid, obj.get("what")))
-                bad = True
+                p = [r["panic"] for r in res if not r["ok"]]
+                print("%s: the recorded script runs (%s); the finding itself (%s) compares exported structures and is only "
+                      "re-decided by ./check %s" % (profile, "panics: %s" % p if p else "no panic", obj.get("what"), pid))
+        if kind == "structural":
+            print("INCONCLUSIVE property=%s replay=%s (structural finding: re-run ./check %s)" % (pid, path, pid))
+            sys.exit(2)
         if bad:
             print("VIOLATION property=%s replay=%s" % (pid, path))
             sys.exit(1)
